@@ -449,8 +449,41 @@ class Alg:
             inner = tuple((a, p) for a, p in m if self.has_EI(a))
             outer = tuple((a, p) for a, p in m if not self.has_EI(a))
             atom = ("wsum", w0, k, ("V", self.poly_term(Poly({inner: 1})), n))
-            acc = acc.add(Poly({mono_mul(outer, ((atom, 1),)): co}))
+            lem = self.decomposition_lemma(atom)
+            if lem is not None:
+                acc = acc.add(Poly({outer: co}).mul(lem))
+            else:
+                acc = acc.add(Poly({mono_mul(outer, ((atom, 1),)): co}))
         return acc
+
+    def decomposition_lemma(self, atom):
+        """Arithmetic lemma (trusted, recorded in `lemmas_used`):  if d_j = v_j mod U, v_{j+1} = v_j div U for
+        j < L starting from v_0 = v with 0 <= v < U^L, then  sum_j U^j * enc(d_j) = enc(v)  (enc is a ring map).
+        Recognised on the canonical fold produced by the digit-decomposition loop."""
+        _, w0, k, vec = atom
+        if w0 != ("int", 1) or k[0] != "int" or vec[0] != "V":
+            return None
+        U, body, L = k[1], vec[1], vec[2]
+        if body[0] != "enc":
+            return None
+        if body[1][0] == "at" and body[1][2] == ("I",):
+            f = body[1][1]
+        elif body[1][0] == "E":
+            f = body[1][1]
+        else:
+            return None
+        if f[0] != "fold" or f[3] != L or len(f[2]) != 2:
+            return None
+        (init_a, step_a), (v0, step_v) = f[2]
+        if step_a != ("upd_idx", ("LV", 0), ("I",), ("irem", ("LV", 1), ("int", U), "u64")):
+            return None
+        if step_v != ("idiv", ("LV", 1), ("int", U), "u64"):
+            return None
+        if init_a[0] != "array" or any(e != ("int", 0) for e in init_a[1]) or len(init_a[1]) != L:
+            return None
+        self.__dict__.setdefault("lemmas_used", []).append(
+            "digit decomposition: sum_j %d^j enc(d_j) = enc(v) for 0 <= v < %d^%d" % (U, U, L))
+        return Poly.atom(("enc", v0))
 
     # ------------------------------------------------------------ booleans
     def nb(self, node):
